@@ -130,6 +130,8 @@ pub struct MockContext {
     protocol: SupportProtocols,
     pub rec: Mutex<Recorded>,
     pub connected: Mutex<HashSet<PeerIndex>>,
+    /// network identities for `get_peer` (needed by the relay protocol)
+    pub peer_infos: Mutex<std::collections::HashMap<PeerIndex, Peer>>,
 }
 
 impl MockContext {
@@ -138,6 +140,7 @@ impl MockContext {
             protocol,
             rec: Default::default(),
             connected: Default::default(),
+            peer_infos: Default::default(),
         })
     }
     pub fn take(&self) -> Recorded {
@@ -145,6 +148,17 @@ impl MockContext {
     }
     pub fn connect(&self, p: PeerIndex) {
         self.connected.lock().unwrap().insert(p);
+    }
+    /// give peer `p` a network identity; returns its peer id
+    pub fn identify(&self, p: PeerIndex) -> ckb_network::PeerId {
+        let id = ckb_network::PeerId::random();
+        let addr: ckb_network::multiaddr::Multiaddr =
+            format!("/ip4/127.0.0.1/tcp/{}/p2p/{}", 8000 + p.value() % 1000, id.to_base58())
+                .parse()
+                .expect("multiaddr");
+        let peer = Peer::new(p, ckb_network::SessionType::Outbound, addr, false);
+        self.peer_infos.lock().unwrap().insert(p, peer);
+        id
     }
 }
 
@@ -260,8 +274,8 @@ impl CKBProtocolContext for MockContext {
         self.rec.lock().unwrap().disconnected.push(peer_index);
         Ok(())
     }
-    fn get_peer(&self, _peer_index: PeerIndex) -> Option<Peer> {
-        None
+    fn get_peer(&self, peer_index: PeerIndex) -> Option<Peer> {
+        self.peer_infos.lock().unwrap().get(&peer_index).cloned()
     }
     fn with_peer_mut(&self, _peer_index: PeerIndex, _f: Box<dyn FnOnce(&mut Peer)>) {}
     fn connected_peers(&self) -> Vec<PeerIndex> {
